@@ -31,6 +31,7 @@ class RefScanner:
         self.adj = False          # previous surviving char was a non-white code char (no blank/comment since)
         self.hashhash = False     # the logical line starts with the single token '##' (not a directive)
         self.last_spliced = False
+        self.split_literal = False   # some backslash-newline fell inside a string / character literal
         self.lineno = 0
         self.out = []             # completed logical lines: (category, [lines])
         self.ill = None
@@ -131,6 +132,8 @@ class RefScanner:
         if not nl:
             return
         if spliced:
+            if self.mode in (STR, CHR):
+                self.split_literal = True
             return
         # a real newline character
         m = self.mode
